@@ -1,6 +1,7 @@
 import WS.Lemmas.ReaderRejects
 import WS.Lemmas.SrcLaw
 import WS.Model.Http
+import WS.Lemmas.Robust
 /-
   C07 — Untrusted network input never panics, hangs or allocates out of proportion.
 
@@ -44,5 +45,32 @@ theorem header_read_bounded (b : Buf) (h : WF b) (n : Nat) (hn : n ≤ b.size) :
 theorem skip_terminates_on_short_stream (b : Buf) (h : WF b) (n : Nat) (hp : b.pending.length < n) :
     (b.skip n).1 = some b.t.term ∧ (b.skip n).2.pending = [] :=
   ⟨(skip_short b h n hp).1, (skip_short b h n hp).2.1⟩
+
+open WS.Http
+/-- panic_only_after_1000_failed_reads: NextReader panics exactly on the 1000th (or later) call that
+    ends in an error — never on a healthy call, never earlier -/
+theorem panic_iff (c : Conn) :
+    (∃ c', nextReader c = (.panic, c')) ↔ (c.r.readErr.isSome ∧ 1000 ≤ c.r.errCount + 1) ∨
+      (c.r.readErr = none ∧ 1000 ≤ c.r.errCount + 1 ∧ ∃ e c', nextReaderLoop c.fuel { c with r := { c.r with msgReader := none, length := 0 } } = (.err e, c')) := by
+  first | exact Robust.nextReader_panic_iff .. | (apply Robust.nextReader_panic_iff <;> assumption)
+
+/-- a connection with fewer than 999 failed calls never panics in NextReader, whatever the peer sends -/
+theorem no_panic_on_any_input (c : Conn) (h : c.r.errCount + 1 < 1000) : ∀ c', nextReader c ≠ (.panic, c') := by
+  first | exact Robust.nextReader_no_panic .. | (apply Robust.nextReader_no_panic <;> assumption)
+
+/-- alloc_linear (quoted strings): the unescaped value is never longer than the header value it came
+    from (the code allocates len(s)-1 bytes for it), and the scanners only ever return pieces of
+    their input -/
+theorem nextTokenOrQuoted_length (s : Bytes) :
+    (nextTokenOrQuoted s).1.length ≤ s.length ∧ (nextTokenOrQuoted s).2.length ≤ s.length := by
+  first | exact Robust.nextTokenOrQuoted_length .. | (apply Robust.nextTokenOrQuoted_length <;> assumption)
+
+theorem nextToken_split (s : Bytes) :
+    (nextToken s).1 ++ (nextToken s).2 = s ∧ ∀ b ∈ (nextToken s).1, isTokenOctet b = true :=
+  Robust.nextToken_split s
+
+/-- skipSpace returns a suffix of its input -/
+theorem skipSpace_suffix (s : Bytes) : ∃ pre, pre ++ skipSpace s = s ∧ ∀ b ∈ pre, b = 32 ∨ b = 9 :=
+  Robust.skipSpace_suffix s
 
 end WS.Props.C07
